@@ -137,6 +137,9 @@ def discard (l : Nat) : D Unit := fun s =>
     if t.length < l then (.error .eof, s)
     else (.ok (), { s with rest := s.rest.drop l, pos := s.pos + l })
 
+/-- Record an allocation of `r` bytes made at the current position (`make([]byte, r)`). -/
+def logAlloc (r : Nat) : D Unit := fun s => (.ok (), { s with log := (r, s.pos) :: s.log })
+
 /-! ### Loops -/
 
 /-- `for i := 0; i < n; i++ { read one element; append }` — `n` from the wire, `esz` bytes per element. -/
@@ -291,7 +294,7 @@ def statusReportOld : D Unit := do
   let n ← arrayLen
   check (n == 4 || n == 6) (.other 8)
   let cnt ← arrayLen
-  fun s => (.ok (), { s with log := (statusItemSize * cnt, s.pos) :: s.log })
+  logAlloc (statusItemSize * cnt)
 
 /-! ### Discovery announcements -/
 
@@ -397,10 +400,10 @@ def xferSegmentOld : D Unit := do
   let _ ← be 1
   let _ ← be 8
   let extLen ← be 4
-  (fun s => (.ok (), { s with log := (extLen, s.pos) :: s.log }) : D Unit)
+  logAlloc extLen
   let _ ← takeN extLen
   let dataLen ← be 8
-  fun s => (.ok (), { s with log := (dataLen, s.pos) :: s.log })
+  logAlloc dataLen
 
 structure SessInit where
   keepalive : Nat
@@ -417,7 +420,7 @@ def sessInit : D SessInit := do
   let smru ← be 8
   let tmru ← be 8
   let idLen ← be 2
-  (fun s => (.ok (), { s with log := (idLen, s.pos) :: s.log }) : D Unit)
+  logAlloc idLen
   let id ← takeN idLen
   let extLen ← be 4
   discard extLen
